@@ -126,8 +126,8 @@ func permutedTokenCompExtras(t *rapid.T, m *MClaims) []byte {
 func isBeyondBuilders(m *MClaims) bool { return !m.IsCanned() }
 
 func TestC10_WireFormat(t *testing.T) {
-	st := NewStats("C10", "TestC10_WireFormat", "rapid: valid claims-sets of both profiles built (a) through NewClaims+setters (optionally on an object on which every claim had already been set to another valid value of possibly different length), (b) as struct literals, (c) by decoding independently encoded tokens with permuted key order, extra unknown keys at top level and inside component maps (incl. the P1 no-measurements form), optionally followed by an in-place update of one decoded component through the object the getter returns, (d) by decoding JSON written by the harness (absent optional claims optionally spelt as null members, unknown members, 64-bit flag values, rotated member order), (e) through setters with the SAME component object listed at several positions (in one call or one by one through the container's Add); the bytes of ValidateAndEncodeClaimsToCBOR are parsed by the independent reader and compared key by key with the model's wire map (definite lengths, no duplicates/tags/trailing bytes, exact key set, exact values, bare-bstr nonce, never list+flag). Non-trivial = not the canned builder shape; distinct = class vector + route")
-	st.Require = []string{"route=setters", "route=literal", "route=decoded", "route=decoded+touched", "route=setters-twice", "route=json-decoded", "route=shared-component", "P1", "P2", "nomeas"}
+	st := NewStats("C10", "TestC10_WireFormat", "rapid: valid claims-sets of both profiles built (a) through NewClaims+setters (optionally on an object on which every claim had already been set to another valid value of possibly different length), (b) as struct literals, (c) by decoding independently encoded tokens with permuted key order, extra unknown keys at top level and inside component maps (incl. the P1 no-measurements form), optionally followed by an in-place update of one decoded component through the object the getter returns, (d) by decoding JSON written by the harness (absent optional claims optionally spelt as null members, unknown members, 64-bit flag values, rotated member order), (e) through setters followed by REFUSED setter calls (invalid values, component lists with a malformed later entry), (f) through setters with the SAME component object listed at several positions (in one call or one by one through the container's Add); the bytes of ValidateAndEncodeClaimsToCBOR are parsed by the independent reader and compared key by key with the model's wire map (definite lengths, no duplicates/tags/trailing bytes, exact key set, exact values, bare-bstr nonce, never list+flag). Non-trivial = not the canned builder shape; distinct = class vector + route")
+	st.Require = []string{"route=setters", "route=literal", "route=decoded", "route=decoded+touched", "route=setters-twice", "route=json-decoded", "route=shared-component", "route=setters+refused", "P1", "P2", "nomeas"}
 	defer st.Flush(t)
 	rapid.Check(t, func(t *rapid.T) {
 		p := drawProf(t)
@@ -147,6 +147,32 @@ func TestC10_WireFormat(t *testing.T) {
 			}
 			if err != nil {
 				t.Fatalf("valid set cannot be built through setters: %v [%s]", err, m.ClassVector())
+			}
+			if genBool.Draw(t, "refused") {
+				// setter calls that are REFUSED (invalid values; component
+				// lists whose first entries are fine and a later one is not)
+				// come between building and encoding: the emitted map is
+				// still exactly the claims that were set successfully
+				for k := rapid.IntRange(1, 3).Draw(t, "refused.n"); k > 0; k-- {
+					o := drawSetterOp(t, p)
+					if o.modelAccepts(p) {
+						continue
+					}
+					if rerr, applicable := o.apply(c); applicable && rerr == nil {
+						t.Fatalf("C10: setter %s accepted an invalid value", o)
+					}
+				}
+				if len(m.Comps) > 0 {
+					var list []psatoken.ISwComponent
+					for i := rapid.IntRange(1, len(m.Comps)).Draw(t, "refused.valid"); i > 0; i-- {
+						list = append(list, libComp(drawComp(t, true, "refused.sw")))
+					}
+					list = append(list, libComp(drawComp(t, false, "refused.bad")))
+					if rerr := c.SetSoftwareComponents(list); rerr == nil {
+						t.Fatalf("C10: a component list with a malformed last entry was accepted")
+					}
+				}
+				route += "+refused"
 			}
 		case "literal":
 			c, _ = m.BuildLiteral()
